@@ -143,6 +143,8 @@ class Func:
             return st.get('q') if st.get('gl') and st.get('q') else st.get('n', '?')
         if k == 'MemberExpr':
             b = self.path(st['ch'][0]) if st['ch'] else 'this'
+            if not st['n']:
+                return b   # anonymous union/struct member: transparent
             return st['n'] if b == 'this' else b + '.' + st['n']
         if k == 'UnaryOperator' and st.get('op') in ('*', '&'):
             return self.path(st['ch'][0])
